@@ -233,7 +233,18 @@ func init() {
 			}
 			return c
 		},
-		"vYield": func(fr *frame, fn *ssa.Function, args []value) value { return nil },
+		"vYield": func(fr *frame, fn *ssa.Function, args []value) value { fr.in.yieldPoint(); return nil },
+		"vSched": func(fr *frame, fn *ssa.Function, args []value) value {
+			tag, _ := concreteString(args[0])
+			if len(fr.in.sch.log) < 2000 {
+				fr.in.sch.log = append(fr.in.sch.log, "+"+tag)
+			}
+			fr.in.yieldPoint()
+			if len(fr.in.sch.log) < 2000 {
+				fr.in.sch.log = append(fr.in.sch.log, "-"+tag)
+			}
+			return nil
+		},
 		"vTier": func(fr *frame, fn *ssa.Function, args []value) value {
 			if fr.in.cfg.Tier == "thorough" {
 				return fr.in.ts.BV(64, 1)
